@@ -463,6 +463,8 @@ def monitor(script):
             target = bid
             if mut.startswith("other:"):
                 target = int(mut[6:])
+            # `otherhash:` only changes the claimed block hash of a proof that also carries the header:
+            # the header decides, so the proof is still about `bid`
             # merkle path shape of leaf ti in a tree of n leaves: number of sibling hashes
             plen, width, pos = 0, n, ti
             while width > 1:
@@ -473,6 +475,7 @@ def monitor(script):
             tampered = (mut in ("txid", "unknownhash", "noblock")
                         or (mut.startswith("path:") and int(mut[5:]) < plen)
                         or (mut.startswith("index:") and int(mut[6:]) != 0)
+                        or (mut.startswith("otherhash:") and form != "both")
                         or (mut.startswith("other:") and not (target in defs and defs.get(target) is not None and
                                                                 blocks.get(target) == blocks.get(bid) and target == bid)))
             committed = blocks.get(bid) == n
